@@ -83,6 +83,10 @@ func (c *fileCtx) q(pkg int) string {
 	if c.p.AliasImports {
 		name = "al_" + name
 	}
+	if name == "init" {
+		// a package named init must be imported under another name
+		name = "ini"
+	}
 	return c.imp(c.p.ImportPath(pkg), name) + "."
 }
 
